@@ -91,3 +91,21 @@ PROPS["C04"] = dict(
     min_labels=dict(quick=dict(reset_after_nonsuccess=20000, small_depth=20000, garbage_flags=10000)),
     assumptions=["flags are constant over one history", "inputs <= 400 bytes per text in generated modes (the code imposes only INT32_MAX)"],
 )
+
+PROPS["C15"] = dict(
+    harness="C15_depth.cpp", level="exploration",
+    technique="property testing over (depth limit D, document) with a reference nesting function from an independent parser; exhaustive boundary shapes for every D<=64; hostile deep inputs; one-shot and chunked; ASan on the exactly-D-record stack",
+    level_text="for generated D (1..64 mostly, up to 2000) and documents whose maximum nesting lies within +-2 of D (or 2D, or 10^5 levels of hostile "
+               "input), acceptance must coincide with the reference nesting function, the value must equal the reference value, and a refusal must be "
+               "the nesting-too-deep error positioned at the first value enclosed by D containers; for every D<=64 twelve boundary shapes x "
+               "{array,object,mixed} x {D-2,D-1,D} are enumerated completely; D<1 must be refused",
+    level_note="'no more stack or memory than the limit implies' is observed through ASan on the level stack of exactly D records and the zero allocation delta; D<=2000 (destruction of accepted trees recurses per level)",
+    rule="(D, document, chunking); non-trivial = maximum nesting within 1 of the limit, or hostile deep input; distinct by hash of (text, D)",
+    quick=[dict(mode="gen", cases=120000, workers=8, maxbytes=6000),
+           dict(mode="boundary", enum=True, size=6912, workers=2)],
+    thorough=[dict(mode="gen", cases=6000000, workers=16, maxbytes=12000),
+              dict(mode="boundary", enum=True, size=6912, workers=2),
+              dict(mode="gen", fuzz=True, secs=300, jobs=8, max_len=2048)],
+    min_labels=dict(quick=dict(at_limit=10000, one_over=10000, below_limit=10000, hostile_deep=2000, from_fd_ex=2000, refused_depth=1000)),
+    assumptions=["D <= 2000", "the accepted window for the error offset runs from the end of the preceding token to one byte past the first byte of the first too-deep value"],
+)
